@@ -4,5 +4,6 @@ CONSTANTS
   NReg = 4
   Exhaustive = FALSE
   MaxDepth = 25
+  Focus = {}
 INVARIANTS Canonical TypeOK EmitHistories
 CHECK_DEADLOCK FALSE
